@@ -79,7 +79,7 @@ def strategy_(draw, tier):
             'r2': [draw(st.sampled_from(PRESERVING)), draw(st.integers(0, 50))]}
   recipe = draw(dags.dag(
       max_nodes=10, min_nodes=3, leaf_profile='nan_free', bts=('Config', 'Config', 'Partial'),
-      kinds=['B', 'B', 'B', 'list', 'tuple', 'dict', 'mdict', 'mdict', 'nt', 'ltuple', 'ntuple', 'set'],
+      kinds=['B', 'B', 'B', 'list', 'tuple', 'dict', 'mdict', 'mdict', 'nt', 'ltuple', 'ntuple', 'set', 'Bmut1'],
       p_alias=0.75,
       fns=['things:f2', 'things:h1', 'things:Base', 'things:Other', 'things:LeafCls', 'things:kwdef', 'things:kwf'],
       root_kinds=['B'], uid=draw(st.booleans())))
